@@ -204,6 +204,21 @@ fn gen(max_opts: usize, lead4: bool) -> Vec<String> {
             }
         }
     }
+    // long leading runs and many in-expression options
+    for base in BASES.iter().take(8) {
+        for &n in &[5usize, 6, 7, 8, 9, 16, 17, 32, 33, 64, 65, 128, 256] {
+            let run: Vec<&str> = (0..n).map(|k| ["-depth", "-threads 1", "-threads 7", "-threads 9"][k % 4]).collect();
+            out.push(format!("{} {base}", run.join(" ")));
+            out.push(format!("{} {base}", vec!["-depth"; n].join(" ")));
+            out.push(format!("{base} {}", run.join(" ")));
+            out.push(format!("-threads 3 {base} -a ( {} )", run.join(" -o ")));
+        }
+    }
+    // parentheses touching their operand (also right after / before an option word)
+    let spaced: Vec<String> = out.iter().filter(|s| s.contains("( ") || s.contains(" )")).take(4000).cloned().collect();
+    for s in spaced {
+        out.push(s.replace("( ", "(").replace(" )", ")"));
+    }
     // options only
     for a in OPTS {
         out.push(a.to_string());
@@ -245,7 +260,7 @@ pub fn run(ctx: &Ctx) -> i32 {
             level: "model_checking",
             exhaustive: true,
             rule: "state = base expression with option words inserted at word boundaries; every state is parsed by the real parser and by the reference (last-wins fold, leading run removed, other options read as -true), then compiled and the scan call's thread argument read back; distinct = distinct (thread argument, input length)".into(),
-            bound: format!("24 bases x every insertion of <= {k} options from {:?} at every word boundary{}", OPTS, " + all leading runs of 4 options"),
+            bound: format!("24 bases x every insertion of <= {k} options from {:?} at every word boundary{}", OPTS, " + all leading runs of 4 options; leading / trailing / parenthesised runs of 5..256 options on 8 bases; the first 4000 inputs with parentheses also with the parentheses touching their operand"),
             assumptions: vec!["-maxdepth/-mindepth may be refused with an error; if accepted the value must be visible in the returned options".into()],
             extra: serde_json::Map::new(),
         },
